@@ -58,14 +58,15 @@ def universe(rng, thorough):
         add("%s|%s?'" % (b, a), N(T(b), T(a, True)), kind="union", members=(b, a + "?"), perm_of="%s?|%s" % (a, b))
     add("Int?|Str?", N(T("Int", True), T("Str", True)), kind="union", members=("Int?", "Str?"))
     # generic instantiations, depth 1 and 2
-    args = ["Int", "Float", "Str", "B", "A", "X"]
+    # argument classes related directly, through an ancestor two steps away, through one of two parents, and unrelated
+    args = ["Int", "Float", "Complex", "Str", "C", "B", "A", "E", "D", "X"]
     for g in ("List", "Set"):
         for a in args:
             add("%s[%s]" % (g, a), single(g, gens=[single(a)]), kind="generic", ctor=g, args=(a,))
     for a in ("Int", "Float", "A"):
         add("List[List[%s]]" % a, single("List", gens=[single("List", gens=[single(a)])]), kind="generic2", ctor="List", args=(a,))
         add("Set[%s?]" % a, single("Set", gens=[single(a, True)]), kind="generic-nullable-arg", ctor="Set", args=(a,))
-    for a, b in (("Int", "Str"), ("Float", "Str"), ("Int", "Int"), ("B", "X"), ("A", "X")):
+    for a, b in (("Int", "Str"), ("Float", "Str"), ("Complex", "Str"), ("Int", "Int"), ("C", "X"), ("B", "X"), ("A", "X")):
         add("Tuple[%s,%s]" % (a, b), single("Tuple", gens=[single(a), single(b)]), kind="tuple", args=(a, b))
         add("Dict[%s,%s]" % (a, b), single("Dict", gens=[single(a), single(b)]), kind="dict", args=(a, b))
     for a in ("Int", "Float"):
